@@ -173,7 +173,7 @@ def run(facts, rep, trait=TRAIT):
 def _shape_key(t):
     """term printed without call-site ids (stable under line / block renumbering)"""
     import re
-    return re.sub(r'#\d+\.\d+', '', show(t))
+    return re.sub(r'#(?:i\d+:)?\d+\.\d+', '', show(t))
 
 
 def _ret_where(b, p):
@@ -218,7 +218,7 @@ def check_poly_division(facts, rep):
     rep.saw(c)
 
     def dk(t):
-        return re.sub(r'#\d+\.\d+', '', show(t, -1000)).replace('&', '')
+        return re.sub(r'#(?:i\d+:)?\d+\.\d+', '', show(t, -1000)).replace('&', '')
     def renum(x):
         # a private function takes (f, g) as arg1, arg2; the closure form takes them as arg2, arg3
         return re.sub(r'arg(\d)', lambda m: 'arg%d' % (int(m.group(1)) + shift), x) if shift else x
